@@ -44,9 +44,12 @@ def main():
             try:
                 for tc in ET.parse(wt + '/junit.xml').getroot().iter('testcase'):
                     nm = tc.get('name')
-                    key = '%s::%s' % (nm, nm)
                     ok = tc.get('status') == 'run' and tc.find('failure') is None
-                    (passed if ok else failed).add(key)
+                    keys = ['%s::%s' % (nm, nm)]
+                    if '.' in nm:
+                        keys.append('%s::%s' % tuple(nm.split('.', 1)))
+                    for key in keys:
+                        (passed if ok else failed).add(key)
             except Exception as e:
                 res['junit_error'] = str(e)
             fs = sorted((stable & failed) | (stable - passed - failed))
